@@ -301,6 +301,8 @@ impl VersionManager {
         }
 
         // Persist the change onto the disk.
+        #[cfg(feature = "verif")]
+        crate::verif::point("commit.built").await;
         manifest.append(&entries).await?;
         #[cfg(feature = "verif")]
         crate::verif::point("commit.appended").await;
